@@ -16,3 +16,19 @@ package aead
 //@   safety C07
 //@   param c aeadCtor
 //@   requires c != nil
+
+// ---- C03 / C18: one fresh random nonce per encryption; output laid out as ciphertext, 16-byte tag, 12-byte nonce ----
+//@ func (cryptoFunc).Encrypt
+//@   facet C03, C18
+//@   safety C03
+//@   opt no-frame
+//@   param c aeadCtor
+//@   requires c != nil
+//@   ensures (err == nil) == (result != nil)
+//@   ensures [C03:cipher-keyed-with-the-given-key-only] ncalls(c) == 1 && arg(c, 1, key) == encKey
+//@   ensures [C03:fresh-random-nonce-per-encryption] err == nil ==> fresh(result) && ncalls(FillRandom) == 1 && ncalls(Seal) == 1 && arg(FillRandom, 1, buf) == arg(Seal, 1, nonce) && arg(Seal, 1, plaintext) == data && len(arg(Seal, 1, additionalData)) == 0
+//@   ensures [C18:ciphertext-tag-then-nonce] err == nil ==> len(result) == len(data) + 16 + 12 && off(result) == 0 && arr(arg(Seal, 1, dst)) == arr(result) && off(arg(Seal, 1, dst)) == 0 && len(arg(Seal, 1, dst)) == 0 && arr(arg(Seal, 1, nonce)) == arr(result) && off(arg(Seal, 1, nonce)) == len(data) + 16 && len(arg(Seal, 1, nonce)) == 12 && overhead(ret(c, 1, 0)) == 16
+
+//@ func (cryptoFunc).Decrypt
+//@   ensures [C18:nonce-is-the-last-12-bytes] retis(c, 1, 1, nil) && len(data) >= nonce_size(ret(c, 1, 0)) ==> ncalls(Open) == 1 && arr(arg(Open, 1, nonce)) == arr(data) && off(arg(Open, 1, nonce)) == off(data) + len(data) - nonce_size(ret(c, 1, 0)) && len(arg(Open, 1, nonce)) == nonce_size(ret(c, 1, 0)) && arr(arg(Open, 1, ciphertext)) == arr(data) && off(arg(Open, 1, ciphertext)) == off(data) && len(arg(Open, 1, ciphertext)) == len(data) - nonce_size(ret(c, 1, 0)) && arg(Open, 1, dst) == nil && len(arg(Open, 1, additionalData)) == 0
+//@   ensures [C01:ciphertext-untouched] forall i int :: 0 <= i && i < len(data) ==> data[i] == old(data[i])
